@@ -59,3 +59,18 @@ __attribute__((noinline)) void w_arr_copy_from(Array<int64_t>* a, const Array<in
 __attribute__((noinline)) void w_arr_ensure_slots(Array<int64_t>* a, uint64_t n) { a->ensure_slots(n); }
 __attribute__((noinline)) void w_arr_clear(Array<int64_t>* a) { a->clear(); }
 }
+// property lists (overloads resolved here so harnesses need not depend on C++ overload mangling)
+extern "C" {
+__attribute__((noinline)) void w_prop_set_u64(Property** p, const char* name, uint64_t v, bool create_new) { set_property(*p, name, v, create_new); }
+__attribute__((noinline)) void w_prop_set_i64(Property** p, const char* name, int64_t v, bool create_new) { set_property(*p, name, v, create_new); }
+__attribute__((noinline)) void w_prop_set_real(Property** p, const char* name, double v, bool create_new) { set_property(*p, name, v, create_new); }
+__attribute__((noinline)) void w_prop_set_str(Property** p, const char* name, const char* v, bool create_new) { set_property(*p, name, v, create_new); }
+__attribute__((noinline)) void w_prop_set_bytes(Property** p, const char* name, const uint8_t* b, uint64_t n, bool create_new) { set_property(*p, name, b, n, create_new); }
+__attribute__((noinline)) uint64_t w_prop_remove(Property** p, const char* name, bool all) { return remove_property(*p, name, all); }
+__attribute__((noinline)) PropertyValue* w_prop_get(Property* p, const char* name) { return get_property(p, name); }
+__attribute__((noinline)) void w_prop_set_gds(Property** p, uint16_t attr, const char* v) { set_gds_property(*p, attr, v); }
+__attribute__((noinline)) PropertyValue* w_prop_get_gds(Property* p, uint16_t attr) { return get_gds_property(p, attr); }
+__attribute__((noinline)) bool w_prop_remove_gds(Property** p, uint16_t attr) { return remove_gds_property(*p, attr); }
+__attribute__((noinline)) Property* w_prop_copy(const Property* p) { return properties_copy(p); }
+__attribute__((noinline)) void w_prop_clear(Property** p) { properties_clear(*p); }
+}
